@@ -68,6 +68,8 @@ def fad(c):
 
 def literal(c):
     lit = c["lit"]
+    if lit["nph"] == 0:
+        return "a{{b}}" if lit["post"] else "ab"
     named = c["named"]
     f0 = fa(c) if named else "_0"
     ref = {"next": "", "pos0": "0", "pos1": "1", "pos2": "2", "name_field": f0, "name_other": "v"}[lit["ref"]]
